@@ -58,6 +58,12 @@ pub fn distance_concrete(a: &Geometry<f64>, b: &Geometry<f64>) -> f64 {
     use geo::{Distance, Euclidean};
     with_geom!(a, x => with_geom!(b, y => Euclidean.distance(x, y)))
 }
+/// the deprecated `EuclideanDistance` trait: a second set of 100 concrete impls for the same quantity
+#[allow(deprecated)]
+pub fn distance_legacy(a: &Geometry<f64>, b: &Geometry<f64>) -> f64 {
+    use geo::EuclideanDistance;
+    with_geom!(a, x => with_geom!(b, y => x.euclidean_distance(y)))
+}
 pub fn distance_enum(a: &Geometry<f64>, b: &Geometry<f64>) -> f64 {
     use geo::{Distance, Euclidean};
     Euclidean.distance(a, b)
